@@ -574,6 +574,10 @@ class Series(_Gap):
             return self._new(present=[z3.And(p, m) for p, m in zip(self.present, key.vals)])
         raise ModelGap(f"Series.__getitem__({type(key).__name__})")
 
+    @property
+    def iloc(self):
+        return _ILoc(self)
+
     def head(self, n=5):
         return self._new(present=_head_mask(self.present, n))
 
@@ -669,6 +673,39 @@ class _StrAccessor:
     def len(self):
         s = self.s
         return s._new(vals=[z3.ToReal(z3.Length(v)) for v in s.vals], dtype=np.dtype("float64"), kind="float")
+
+
+def _slice_mask(present, key):
+    """iloc[start:stop] on the rows that are present: python slice semantics over positions (negative bounds count from the end,
+    -0 is 0), with symbolic bounds allowed; step must be None/1"""
+    if not isinstance(key, slice) or key.step not in (None, 1):
+        raise ModelGap("iloc with a non-slice / stepped key")
+    n = z3.Sum([z3.If(p, 1, 0) for p in present]) if present else z3.IntVal(0)
+
+    def norm(b, default):
+        if b is None:
+            return default
+        z = lift_num(b)
+        return z3.If(z < 0, z3.If(n + z < 0, z3.IntVal(0), n + z), z3.If(z > n, n, z))
+
+    lo, hi = norm(key.start, z3.IntVal(0)), norm(key.stop, n)
+    out, pos = [], z3.IntVal(0)
+    for p in present:
+        out.append(z3.And(p, pos >= lo, pos < hi))
+        pos = pos + z3.If(p, 1, 0)
+    return out
+
+
+class _ILoc:
+    def __init__(self, obj):
+        self.obj = obj
+
+    def __getitem__(self, key):
+        o = self.obj
+        newp = _slice_mask(o.present, key)
+        if isinstance(o, Series):
+            return o._new(present=newp)
+        return DataFrame(o._cols, present=newp, index=o.index.with_present(newp))
 
 
 def _head_mask(present, n):
@@ -847,6 +884,10 @@ class DataFrame(_Gap):
         anynull = [zor(c.nulls[i] for _, c in self._cols) for i in range(len(self.present))]
         newp = [z3.And(p, z3.Not(a)) for p, a in zip(self.present, anynull)]
         return DataFrame(self._cols, present=newp, index=self.index.with_present(newp))
+
+    @property
+    def iloc(self):
+        return _ILoc(self)
 
     # no __len__: pandera's only use of len(frame) is ErrorHandler's failure_cases_count (stored, never read), which falls back to
     # 1 on TypeError; deciding the height there would multiply the paths of every lazy template (measured: 4x the solver queries)
